@@ -38,6 +38,7 @@ type bNode struct {
 	w      *worldB
 	name   string
 	idx    int
+	resync []func() // chain-observer stub: repeated after every restart
 	key    *simtm.Key
 	cfg    *kprconfig.Config
 	db     *pgsim.Server
@@ -254,6 +255,9 @@ func (w *worldB) restart(nd *bNode, opts ...keyper.Option) {
 	nd.restarts++
 	w.r.Eventf("RESTART %s", nd.name)
 	w.startNode(nd, opts...)
+	for _, f := range nd.resync {
+		f()
+	}
 }
 
 func (w *worldB) netNode(name string) *simnet.Node {
@@ -272,12 +276,18 @@ func (w *worldB) provisionKeyperSet(nd *bNode, kci, activation int64, members []
 	for _, i := range members {
 		ks = append(ks, shdb.EncodeAddress(w.keys[i].Addr))
 	}
-	w.task(func() {
-		err := obskeyper.New(nd.pool).InsertKeyperSet(nd.ctx, obskeyper.InsertKeyperSetParams{KeyperConfigIndex: kci, ActivationBlockNumber: activation, Keypers: ks, Threshold: int32(threshold)})
-		if err != nil {
-			w.r.Eventf("%s InsertKeyperSet: %v", nd.name, err)
-		}
-	})
+	insert := func() {
+		w.task(func() {
+			err := obskeyper.New(nd.pool).InsertKeyperSet(nd.ctx, obskeyper.InsertKeyperSetParams{KeyperConfigIndex: kci, ActivationBlockNumber: activation, Keypers: ks, Threshold: int32(threshold)})
+			if err != nil {
+				w.r.Eventf("%s InsertKeyperSet: %v", nd.name, err)
+			}
+		})
+	}
+	// the chain observer runs inside the keyper process: after a restart it syncs the contract
+	// again (the insert is idempotent)
+	nd.resync = append(nd.resync, insert)
+	insert()
 }
 
 func (w *worldB) task(f func()) {
